@@ -47,8 +47,9 @@ ASSUMPTIONS = [
     'visible (the other must be beneath when nesting)',
 ]
 
-DIRS = ['a', 'b', 'img', 'snd.d', 'x.y']
-STEMS = ['f', 'g', 'pic', 'readme', 'n.m']
+# ('shots.png', 'copy.png': the text of an extension also earlier in a path)
+DIRS = ['a', 'b', 'img', 'snd.d', 'x.y', 'shots.png']
+STEMS = ['f', 'g', 'pic', 'readme', 'n.m', 'copy.png']
 EXTS = ['', '.txt', '.png', '.gz']
 
 
